@@ -701,3 +701,68 @@ pub fn dense_total_space(max_words: usize) -> ByteSpace {
         }
     })
 }
+
+/// Datagrams of mid-size tiles (1100, 1400, 4000 and 24000 bytes) whose total crosses 65 507 (the largest UDP
+/// payload), 65 535 / 65 536 and 262 144 bytes (the largest single packet): the offset at which a tile starts passes
+/// values that no run of small tiles and no single large packet reaches. For each tile size the counts just below and
+/// above each crossing, ending exactly / with a last tile whose length field claims one word more than is left / with a
+/// stray byte / with a small tile whose header claims more than is left.
+pub fn big_chain_space() -> ByteSpace {
+    const SIZES: [usize; 4] = [1100, 1400, 4000, 24000];
+    const MARKS: [usize; 3] = [65_507, 65_536, 262_144];
+    // (tile size, count)
+    let mut shapes: Vec<(usize, usize)> = Vec::new();
+    for &sz in &SIZES {
+        for &m in &MARKS {
+            let k = m / sz;
+            for n in [k.saturating_sub(1).max(1), k, k + 1, k + 2] {
+                if !shapes.contains(&(sz, n)) {
+                    shapes.push((sz, n));
+                }
+            }
+        }
+    }
+    let ns = shapes.len() as u64;
+    ByteSpace::new("datagrams-of-mid-size-tiles-across-64K-and-256K", ns * 4, move |idx, out| {
+        out.clear();
+        let (sz, n) = shapes[(idx % ns) as usize];
+        let tail = idx / ns;
+        let words = sz / 4;
+        let mut last = 0usize;
+        for i in 0..n {
+            last = out.len();
+            // APP and unknown-type tiles alternate
+            let pt = if i % 2 == 0 { 204u8 } else { 209 };
+            out.extend_from_slice(&[0x80 | (i % 32) as u8, pt, ((words - 1) >> 8) as u8, (words - 1) as u8]);
+            out.extend((4..sz).map(|j| ((j * 3 + i) % 251) as u8 | 1));
+        }
+        match tail {
+            0 => {}
+            1 => {
+                let f = crate::refmodel::read::rd16(out, last + 2).wrapping_add(1);
+                out[last + 2] = (f >> 8) as u8;
+                out[last + 3] = f as u8;
+            }
+            2 => out.push(0x80),
+            _ => out.extend_from_slice(&[0x80, 201, 0, 2, 1, 2, 3, 4]),
+        }
+    })
+}
+
+/// SR / RR / BYE strings of every length 4, 8 ... 900 bytes x every count 0..=31 (exactly framed, no padding bit /
+/// padding bit with a final byte of 4): the count-implied size against the total, over the whole product.
+pub fn count_x_length_space() -> ByteSpace {
+    ByteSpace::new("reports-and-byes-count-x-length", 3 * 32 * 225 * 2, move |idx, out| {
+        out.clear();
+        let pt = [200u8, 201, 203][(idx % 3) as usize];
+        let count = ((idx / 3) % 32) as u8;
+        let words = ((idx / 96) % 225) as usize + 1;
+        let padded = idx / (96 * 225) == 1;
+        out.extend_from_slice(&[0x80 | if padded { 0x20 } else { 0 } | count, pt, ((words - 1) >> 8) as u8, (words - 1) as u8]);
+        out.extend((4..words * 4).map(|j| ((j * 7 + count as usize) % 249) as u8 | 2));
+        if padded && words > 1 {
+            let n = out.len();
+            out[n - 1] = 4;
+        }
+    })
+}
